@@ -80,6 +80,11 @@ def check_resampler(run: common.Run, n, methods=('average', 'nearest', 'bilinear
         rng = run.rng(f'resamp{k}')
         method = methods[k % len(methods)]
         sg, dg, arr, valid, kind = gen(rng, method)
+        if method in ('cubic', 'cubic_spline') and sg.px == dg.px and (dg.x0 - sg.x0) % sg.px == 0 and (dg.ytop - sg.ytop) % sg.py == 0:
+            # a whole-pixel translation at equal resolution: GDAL copies pixels (nearest) instead of applying the kernel (a B-spline
+            # would smooth); homonim never up-samples at equal resolution (`_get_resampling` picks the down-sampling method)
+            run.hist['resampler: 4x4 kernel on a whole-pixel translation (GDAL copies): skipped'] += 1
+            continue
         case = dict(i=base + k, op='reproject', method=method, src=sg.to_dict(), dst=dg.to_dict(), mask=kind)
         try:
             out = impl_reproject(sg, dg, arr, valid, method)
